@@ -19,6 +19,7 @@ import FontcProofs.VarModelSort
 import FontcProofs.VarModelTri
 import FontcProofs.Gvar
 import FontcProps.C07
+import FontcProofs.IvsBridge
 
 namespace Fontc.C03
 open Fontc Fontc.VarModel
@@ -67,6 +68,18 @@ theorem gvar_default_exact (n : Nat) (locs : List Loc)
     interpolate M.influence (M.deltas Rounding.tiesEven.apply vals) (List.replicate n 0) = (k : Rat) := by
   exact ⟨(C07.default_exact n locs hlen hnd hz M hM Rounding.tiesEven.apply vals hvals k hv).1,
     C07.default_exact_int n locs hlen hnd hz M hM Rounding.tiesEven vals hvals k hv⟩
+
+/-- The independent spec evaluator used by the end-to-end oracle (FontcModel/Ivs.lean `regionScalar`, written from
+    the OpenType specification) computes, on every region of the model, the same scalar as the model of fontc's
+    `scalar_at` — so `interpolate` above is what an OpenType rasteriser computes from the stored tuples. -/
+theorem spec_evaluator_agrees (n : Nat) (locs : List Loc)
+    (hlen : ∀ l ∈ locs, l.length = n) (hnd : locs.Pairwise (· ≠ ·))
+    (M : Model) (hM : M = Model.new n locs) (r : Region) (hr : r ∈ M.influence) (loc : Loc) :
+    Ivs.regionScalar (r.map tentTriple) loc = scalarAt r loc := by
+  subst hM
+  rw [Model.new_eq n locs hlen hnd] at hr
+  have hperm := sortLocs_perm locs
+  exact spec_scalar_eq_model (n := n) (fun l hl => hlen l (hperm.mem_iff.1 hl)) r hr loc
 
 /-- Non-vacuity: a sparse glyph drawn at the default, at the intermediate wght = 1/2 and at wght = 1 of a
     2-axis space; the intermediate master's coordinate 131 is reproduced within 1/2. -/
